@@ -76,6 +76,9 @@ def run(tier: str) -> int:
     chk.assumptions = ["byte equality is judged on Python strings returned by reformat_text and on file bytes for the CLI subset"]
     model, mres = docs.model_docs(*bound)
     chk.add_tlc(mres)
+    model2, mres2 = docs.model_docs(*((4, 3) if tier == "quick" else (5, 3)), leafs={"P", "H", "B", "C", "T", "R"})     # tables and rules
+    chk.add_tlc(mres2)
+    model = {**model2, **model}
     jobs = []
     seen = set()
     xs = [(toks, docgen.src(list(toks))) for toks in sorted(model)] + [(w, docgen.src(list(w))) for w in c01.WITNESS_S]
